@@ -139,7 +139,7 @@ CHECKS = {
     "C03": dict(
         engine="E2-handler",
         technique="Coq proof over functions REGENERATED from /repo/src by a fail-closed Python-ast translator (pure.py) and proved equal to the model + Coq proof (location matching iff-characterisations, soundness/completeness/silence/independence of the per-event action selection, merge keeps actions up to permutation) + in-Coq correspondence with the real handler on synthetic events, poll responses and live multi-threaded programs",
-        text="12 Coq theorems over Match.v and Handler.v: a line location matches exactly the line events of that file name and line, a "
+        text="13 Coq theorems over Match.v and Handler.v: a line location matches exactly the line events of that file name and line, a "
              "named method location exactly the call events of that function name in that file, return/exception events "
              "match nothing; whatever acts at an event belongs to an installed trigger at that location with an open gate "
              "(only-when), every such action acts (when), no matching trigger means no action, each trigger contributes what "
@@ -300,7 +300,7 @@ def main():
                  serves_properties=["C08"], kind_free_text="records as finite maps, table-driven conversion, losslessness law; tables regenerated from the converter functions; serialise/parse oracle"),
             dict(name="E7-translated-functions", path="harness/translate/pure.py coq/theories/PureSupport.v coq/gen/PLimits.v coq/gen/PMatch.v coq/gen/PCollect.v coq/gen/PRender.v coq/gen/PTruth.v coq/gen/PGate.v coq/gen/PTable.v coq/gen/PFrames.v coq/gen/PStore.v coq/gen/PService.v coq/gen/PRegistry.v coq/gen/PCallbacks.v coq/gen/PMetrics.v coq/gen/PHooks.v coq/theories/TieLimits.v coq/theories/TieMatch.v coq/theories/TieCollect.v coq/theories/TieRender.v coq/theories/TieTruth.v coq/theories/TieGate.v coq/theories/TieHit.v coq/theories/TieTable.v coq/theories/TieFrames.v coq/theories/TieStore.v coq/theories/TieService.v coq/theories/TieRegistry.v coq/theories/TieCallbacks.v coq/theories/TieMetrics.v coq/theories/TieHooks.v tools/mutate_pure.py",
                  serves_properties=["C02", "C03", "C04", "C05", "C10", "C11", "C12", "C13", "C14", "C15", "C17", "C18", "C19"],
-                 kind_free_text="44 functions of the agent translated statement by statement into Gallina on every run by a fail-closed Python-ast translator and proved equal to the functions of the hand-written models; property theorems stated over the translated code"),
+                 kind_free_text="45 functions of the agent translated statement by statement into Gallina on every run by a fail-closed Python-ast translator and proved equal to the functions of the hand-written models; property theorems stated over the translated code"),
             dict(name="E4-stores", path="coq/theories/Attrs.v coq/theories/AttrsProofs.v coq/theories/Config.v harness/props/c18.py harness/props/c19.py",
                  serves_properties=["C18", "C19"], kind_free_text="Gallina models of the attribute store, resources, configuration resolution; proofs; in-Coq correspondence"),
         ],
